@@ -15,7 +15,7 @@ from pathlib import Path
 VERIF = Path(__file__).resolve().parent.parent
 REPO = Path(os.environ.get("FROUROS_REPO", "/repo"))
 LEAN = VERIF / "lean"
-DRIVER = LEAN / ".lake" / "build" / "bin" / "driver"
+DRIVER = Path(os.environ.get("VERIF_DRIVER") or (LEAN / ".lake" / "build" / "bin" / "driver"))      # (override: trying a model change before it is merged)
 # the committed evidence comes from runs against /repo itself: a run pointed at another tree (FROUROS_REPO, used by tools/ for seeded changes) writes its evidence to a scratch directory
 # (VERIF_EVIDENCE_DIR when given, otherwise nowhere)
 EVIDENCE = Path(os.environ["VERIF_EVIDENCE_DIR"]) if os.environ.get("VERIF_EVIDENCE_DIR") else ((VERIF / "evidence") if str(REPO) == "/repo" else None)
